@@ -139,6 +139,14 @@ class Interp(object):
             return None
         if name == 'cJSON_New_Item':
             return self.heap.new('new%d' % (self.heap.n + 1), type=0)
+        if name == 'cJSON_strdup' and args:
+            # its contract (OWN/OUT rules look at the body): NULL for NULL, else a copy with the same bytes
+            if args[0] is None:
+                return None
+            if isinstance(args[0], tuple) and args[0][0] == 'str':
+                return ('str', args[0][1])
+        if name in ('strlen', '__builtin_strlen') and args and isinstance(args[0], tuple) and args[0][0] == 'str':
+            return len(args[0][1])
         if name in ('compare_strings', 'strcmp', 'case_insensitive_strcmp') and len(args) >= 2 and \
                 all(isinstance(a, tuple) and a[0] == 'str' for a in args[:2]):
             # the comparators are TAB20's business; here they are their contract: the sign of the byte-wise comparison
@@ -339,10 +347,11 @@ class Interp(object):
                     l, r = self.ev(e['l'], frame), self.ev(e['r'], frame)
                     if not isinstance(l, int) or not isinstance(r, int):
                         raise AnalysisBroken('SHP: %s: compound assignment on non-integers' % fn.where(e))
-                    v = {'+=': l + r, '-=': l - r, '|=': l | r, '&=': l & r, '*=': l * r, '^=': l ^ r,
-                         '<<=': l << r, '>>=': l >> r}.get(op)
-                    if v is None:
+                    f_ = {'+=': lambda: l + r, '-=': lambda: l - r, '|=': lambda: l | r, '&=': lambda: l & r, '*=': lambda: l * r,
+                          '^=': lambda: l ^ r, '<<=': lambda: l << r, '>>=': lambda: l >> r}.get(op)
+                    if f_ is None or (op in ('<<=', '>>=') and not (0 <= r < 64)):
                         raise AnalysisBroken('SHP: %s: operator %s' % (fn.where(e), op))
+                    v = f_()
                 self.assign(e['l'], v, frame)
                 return v
             if op == ',':
@@ -370,9 +379,11 @@ class Interp(object):
                     return int({'<': l < r, '<=': l <= r, '>': l > r, '>=': l >= r}[op])
                 if op in ('/', '%') and r == 0:
                     raise ShapeViolation('division by zero at %s' % fn.where(e))
-                return {'+': l + r, '-': l - r, '*': l * r, '&': int(l) & int(r), '|': int(l) | int(r), '^': int(l) ^ int(r),
-                        '<<': int(l) << int(r), '>>': int(l) >> int(r), '/': int(l / r) if r else 0,
-                        '%': l - int(l / r) * r if r else 0}[op]
+                if op in ('<<', '>>') and not (0 <= int(r) < 64):
+                    raise ShapeViolation('shift by %s at %s' % (r, fn.where(e)))
+                return {'+': lambda: l + r, '-': lambda: l - r, '*': lambda: l * r, '&': lambda: int(l) & int(r), '|': lambda: int(l) | int(r),
+                        '^': lambda: int(l) ^ int(r), '<<': lambda: int(l) << int(r), '>>': lambda: int(l) >> int(r),
+                        '/': lambda: int(l / r) if r else 0, '%': lambda: l - int(l / r) * r if r else 0}[op]()
             raise AnalysisBroken('SHP: %s: %s on values that are not modelled' % (fn.where(e), op))
         if k == 'cond':
             c = self.truthy(self.ev(e['c'], frame), fn.where(e))
@@ -842,3 +853,98 @@ def shp3(units, R, names=None):
         R.ob('SHP3', fn, None, '%s answers like the list model on short lists' % fname, not bad,
              '%d cases' % n_cases if not bad else '%s (%d of %d cases wrong)' % (bad[0], len(bad), n_cases), key='query:' + fname)
     R.floor('SHP3', 'queries evaluated', n_fn, 1)
+
+
+# ---- SHP4: the duplicator over every kind of node (bounded) -----------------------------------------------------------------------
+
+def shp4(units, R, fname='cJSON_Duplicate'):
+    """cJSON_Duplicate evaluated over abstract heaps: one node of every kind (the eight kinds, with and without the reference and the
+    constant-key bit, with the payload that kind carries - text for strings and raw nodes, the two number views), and arrays /
+    objects of up to three children of mixed kinds one level deep, with and without recursion.  The copy is a different node with
+    the same kind, the same number views, the same key and - whatever the kind - the same text; it never is a reference; with
+    recursion it has as many children as the source, copies of them in the same order, with well-formed links, none of them a
+    node of the source; without recursion it has none.  What is shared and what is owned is TAB14's question, allocation failures
+    are OWN2's; this is about a payload being left out for some kind of node.  A bounded statement (one level, three children)."""
+    u = units['cJSON.c']
+    if fname not in u.functions:
+        raise AnalysisBroken('SHP4: %s not found in cJSON.c' % fname)
+    fn = u.functions[fname]
+    KINDS = {1: 'false', 2: 'true', 4: 'null', 8: 'number', 16: 'string', 32: 'array', 64: 'object', 128: 'raw'}
+    bad = []
+    n_cases = 0
+
+    def mk(heap, name, kind, flags=0, key=b'k'):
+        return heap.new(name, type=kind | flags, valuestring=('str', b'text of ' + name.encode()) if kind in (16, 128) else None,
+                        valueint=7 if kind == 8 else 0, valuedouble=7.5 if kind == 8 else 0, string=('str', key) if key is not None else None)
+
+    def same_payload(heap, a, b, what):
+        fa, fb = heap.nodes[a[1]], heap.nodes[b[1]]
+        if a == b:
+            raise ShapeViolation('%s: the copy is the source node itself' % what)
+        if (fb['type'] & 0xFF) != (fa['type'] & 0xFF):
+            raise ShapeViolation('%s: kind %s copied as type %s' % (what, KINDS.get(fa['type'] & 0xFF), fb['type']))
+        if fb['type'] & IS_REFERENCE:
+            raise ShapeViolation('%s: the copy is marked as a reference' % what)
+        for f in ('valuestring', 'valueint', 'valuedouble', 'string'):
+            if fa[f] != fb[f]:
+                raise ShapeViolation('%s: %s of the copy is %r, the source has %r' % (what, f, fb[f], fa[f]))
+
+    for kind in sorted(KINDS):
+        for flags in (0, IS_REFERENCE, STRING_IS_CONST):
+            for recurse in (1, 0):
+                n_cases += 1
+                heap = Heap()
+                item = mk(heap, 'item', kind, flags)
+                what = 'a %s node%s, recurse=%d' % (KINDS[kind], {0: '', IS_REFERENCE: ' (reference)', STRING_IS_CONST: ' (constant key)'}[flags], recurse)
+                try:
+                    r = Interp(units, heap).call(fname, [item, recurse])
+                    if r is None:
+                        raise ShapeViolation('%s: no copy' % what)
+                    same_payload(heap, item, r, what)
+                    if heap.nodes[r[1]]['next'] is not None or heap.nodes[r[1]]['prev'] is not None:
+                        raise ShapeViolation('%s: the copy has sibling links' % what)
+                    if heap.nodes[r[1]]['child'] is not None:
+                        raise ShapeViolation('%s: the copy has children' % what)
+                except ShapeViolation as v:
+                    bad.append(str(v))
+    import itertools
+    for parent_kind in (32, 64):
+        for nkids in range(1, 4):
+            for kinds in itertools.product((8, 16, 128, 2), repeat=nkids):
+                for recurse in (1, 0):
+                    n_cases += 1
+                    heap = Heap()
+                    parent, el = _make_list(heap, nkids, kind=parent_kind)
+                    heap.nodes[parent[1]]['string'] = ('str', b'p')
+                    for i, (p_, k_) in enumerate(zip(el, kinds)):
+                        f = heap.nodes[p_[1]]
+                        f['type'] = k_
+                        f['valuestring'] = ('str', b'text %d' % i) if k_ in (16, 128) else None
+                        f['valueint'], f['valuedouble'] = (i, i + 0.5) if k_ == 8 else (0, 0)
+                        f['string'] = ('str', b'k%d' % i) if parent_kind == 64 else None
+                    before = _snapshot(heap)
+                    what = '%s of %s, recurse=%d' % (KINDS[parent_kind], '/'.join(KINDS[k_] for k_ in kinds), recurse)
+                    try:
+                        r = Interp(units, heap).call(fname, [parent, recurse])
+                        if r is None:
+                            raise ShapeViolation('%s: no copy' % what)
+                        same_payload(heap, parent, r, what)
+                        seq = heap.sequence(r)
+                        if not recurse:
+                            if seq:
+                                raise ShapeViolation('%s: children copied without recursion' % what)
+                        else:
+                            if len(seq) != nkids:
+                                raise ShapeViolation('%s: the copy has %d children' % (what, len(seq)))
+                            for a_, b_ in zip(el, seq):
+                                same_payload(heap, a_, b_, what)
+                                if b_ in el:
+                                    raise ShapeViolation('%s: a child of the source is linked into the copy' % what)
+                            heap.well_formed(r)
+                        if {i: f for i, f in _snapshot(heap).items() if i in before} != before:
+                            raise ShapeViolation('%s: the source was modified' % what)
+                    except ShapeViolation as v:
+                        bad.append(str(v))
+    R.ob('SHP4', fn, None, '%s copies every kind of node with its whole payload' % fname, not bad,
+         '%d cases' % n_cases if not bad else '%s (%d of %d cases wrong)' % (bad[0], len(bad), n_cases), key='dup:' + fname)
+    R.floor('SHP4', 'duplication cases evaluated', n_cases, 40)
